@@ -222,7 +222,21 @@ func drawBytes(t *rapid.T, n int, label string) []byte {
 		}
 		return b
 	}
-	switch rapid.IntRange(0, 12).Draw(t, label+"Fill") {
+	switch rapid.IntRange(0, 13).Draw(t, label+"Fill") {
+	case 13: // (8-byte fields) a big-endian NUMBER of a plausible magnitude: a small counter, a count of time steps since the
+		// epoch, or what a caller passes when it confuses steps with time — Unix seconds, milliseconds, microseconds,
+		// nanoseconds of about now. The field is 8 bytes of data whatever number they spell.
+		if n == 8 {
+			base := rapid.SampledFrom([]uint64{0, 1, 1000, 28_333_333, 56_666_666, 1_700_000_000, 1_999_999_999, 1_000_000_000, 9_999_999_999, 1_700_000_000_000, 1_700_000_000_000_000, 1_700_000_000_000_000_000, 1 << 31, 1 << 32, 1<<63 - 1}).Draw(t, label+"Num")
+			v := base + uint64(rapid.IntRange(0, 1000).Draw(t, label+"NumD"))
+			b := make([]byte, 8)
+			for i := 7; i >= 0; i-- {
+				b[i] = byte(v)
+				v >>= 8
+			}
+			return b
+		}
+		return rapid.SliceOfN(rapid.Byte(), n, n).Draw(t, label)
 	case 12: // the digest of a weak or empty PIN (what a "reject weak passwords" screen would single out); for other
 		// lengths the leading bytes of the SHA-512 digest, padded with zeros
 		pin := rapid.SampledFrom([]string{"", "", "0", "1234", "0000", "000000", "123456", "password", "\x00"}).Draw(t, label+"Pin")
